@@ -29,7 +29,9 @@ inductive Res | none | ok | no | err
 inductive Reply | ok | no
   deriving DecidableEq, Repr
 
-inductive ContSt | unused | waiting | done | cancelled
+/-- `refused`: cancelled by the command's tagged NO/BAD (an `*imap.Error`), which `flush` tolerates;
+    `cancelled`: cancelled with any other error -/
+inductive ContSt | unused | waiting | done | cancelled | refused
   deriving DecidableEq, Repr
 
 inductive WireKind | line | head | tail | done
@@ -111,7 +113,7 @@ inductive Instr
   | loadDone (c : Nat) (r : Res)
   | send (c : Nat) (r : Res) (init : Bool)
   | closeDone (c : Nat)
-  | cancelConts (c : Nat)
+  | cancelConts (c : Nat) (r : Res)
   | setState (st : CState)
   | closeMsgs (c : Nat)
   | encUnlock
@@ -220,7 +222,7 @@ def resOfReply : Reply → Res
 /-- completeCommand(cmd, r): load `done`, send, close, cancel continuation requests, then the
     type switch -/
 def complete (kind : Kind) (c : Nat) (r : Res) : List Instr :=
-  [.loadDone c r, .closeDone c, .cancelConts c] ++
+  [.loadDone c r, .closeDone c, .cancelConts c r] ++
   (match kind, r with
    | .login, .ok => [.setState .auth]
    | .fetch, _ => [.closeMsgs c]
@@ -268,23 +270,23 @@ def openHeads (s : St) : List Nat :=
 def deliver (s : St) (l : Line) : St :=
   if s.connClosed then s else { s with inbox := s.inbox ++ [l] }
 
-def execSrv (s : St) (rest : List Instr) : SrvAct → St
+def execSrv (s : St) (t : Nat) (rest : List Instr) : SrvAct → St
   | .reply rep oldest =>
     let cands := unanswered s
     match (if oldest then cands.head? else cands.getLast?) with
     | none => s
     | some c =>
       let caps := decide ((s.cmd c).kind = .login) && decide (rep = .ok)
-      ({ deliver s (.tagged (s.cmd c).ltag rep caps) with replied := s.replied ++ [c] }).setProg tServer rest
+      ({ deliver s (.tagged (s.cmd c).ltag rep caps) with replied := s.replied ++ [c] }).setProg t rest
   | .cont =>
     match (openHeads s).head? with
     | none => s
     | some c =>
       ({ deliver s .cont with contGiven := s.contGiven ++ [c],
-                              contAddressed := s.contAddressed ++ [c] }).setProg tServer rest
-  | .enabled => (deliver s .enabled).setProg tServer rest
-  | .close => ({ s with srvClosed := true }).setProg tServer rest
-  | .rerr => ({ s with rerr := true }).setProg tServer rest
+                              contAddressed := s.contAddressed ++ [c] }).setProg t rest
+  | .enabled => (deliver s .enabled).setProg t rest
+  | .close => ({ s with srvClosed := true }).setProg t rest
+  | .rerr => ({ s with rerr := true }).setProg t rest
 
 /-- execute instruction `i` of thread `t` whose remaining program is `rest` -/
 def exec (v : Variant) (s : St) (t : Nat) (i : Instr) (rest : List Instr) : St :=
@@ -294,6 +296,9 @@ def exec (v : Variant) (s : St) (t : Nat) (i : Instr) (rest : List Instr) : St :
     | none => ({ s with enc := some t }).setProg t rest
     | some _ => s
   | .register c =>
+    -- every submission creates a fresh Go command object; the model names objects by their id
+    -- and therefore refuses to register an id twice (never the case for scenario programs)
+    if (s.cmd c).registered then s else
     let tag := s.cmdTag + 1
     (({ s with cmdTag := tag, pending := s.pending ++ [c] }).updCmd c fun r =>
       { r with registered := true, ltag := tag,
@@ -323,6 +328,11 @@ def exec (v : Variant) (s : St) (t : Nat) (i : Instr) (rest : List Instr) : St :
     | .cancelled =>
       if idle then s.setProg t (.encUnlock :: dropThrough isOpEnd rest)
       else s.closeConn.setProg t (.closeSwap :: .encUnlock :: dropThrough isFinalFlush rest)
+    | .refused =>
+      -- the server answered the literal header / IDLE with NO or BAD: the command is over, nothing
+      -- more is written, the connection stays usable (flush tolerates an *imap.Error)
+      if idle then s.setProg t (.encUnlock :: dropThrough isOpEnd rest)
+      else s.setProg t (.encUnlock :: dropThrough isFinalFlush rest)
     | _ => s
   | .wait c =>
     let r := s.cmd c
@@ -372,10 +382,10 @@ def exec (v : Variant) (s : St) (t : Nat) (i : Instr) (rest : List Instr) : St :
     let rc := s.cmd c
     if rc.closed ≥ 1 || !rc.chanInit then { s with crashed := true }
     else (s.updCmd c fun rc => { rc with closed := rc.closed + 1 }).setProg t rest
-  | .cancelConts c =>
+  | .cancelConts c r =>
     let gone := s.contReqs.filter (·.2 = c)
     let s1 := { s with contReqs := s.contReqs.filter (·.2 ≠ c) }
-    (gone.foldl (fun acc kc => acc.setCont kc.1 .cancelled) s1).setProg t rest
+    (gone.foldl (fun acc kc => acc.setCont kc.1 (if r = .no then .refused else .cancelled)) s1).setProg t rest
   | .setState st => ({ s with state := st }).setProg t rest
   | .closeMsgs c =>
     if (s.cmd c).streamClosed ≥ 1 then { s with crashed := true }
@@ -417,7 +427,7 @@ def exec (v : Variant) (s : St) (t : Nat) (i : Instr) (rest : List Instr) : St :
   | .enabledW => ({ s with enabledUtf8 := true }).setProg t rest
   | .findByType => s.setProg t rest
   | .rdExit => ({ s with decClosed := true }).setProg t rest
-  | .srv a => if s.srvClosed then s else execSrv s rest a
+  | .srv a => if s.srvClosed then s else execSrv s t rest a
 
 /-- `Caps()` starts with WaitGreeting, a `select` over the greeting channel and `decCh`. Once the
     reader has ended both are closed and Go picks either branch; on the `decCh` branch Caps returns
@@ -469,7 +479,7 @@ def label (v : Variant) : Instr → Option String
   | .loadDone .. => none
   | .send .. => some "Client.completeCommand:send#1"
   | .closeDone _ => some "Client.completeCommand:close#1"
-  | .cancelConts _ => some "Client.completeCommand:mutex.Lock#1"
+  | .cancelConts .. => some "Client.completeCommand:mutex.Lock#1"
   | .setState _ => some "Client.setState:mutex.Lock#1"
   | .closeMsgs _ => some "Client.completeCommand:close#3"
   | .encUnlock => none
@@ -600,7 +610,9 @@ def enabled (v : Variant) (s : St) (t : Nat) : Bool :=
   | i :: rest =>
     match i with
     | .encLock => s.enc.isNone
-    | .contWait c _ => s.contSt (s.cmd c).cont == .done || s.contSt (s.cmd c).cont == .cancelled
+    | .register c => !(s.cmd c).registered
+    | .contWait c _ =>
+      s.contSt (s.cmd c).cont == .done || s.contSt (s.cmd c).cont == .cancelled || s.contSt (s.cmd c).cont == .refused
     | .wait c => let r := s.cmd c; r.chanInit && ((decide (r.sent ≥ 1) && !r.waited) || decide (r.closed ≥ 1))
     | .fetchNext c => decide ((s.cmd c).streamClosed ≥ 1)
     | .idleJoin c | .idleWait c => (s.cmd c).idleDone
@@ -615,5 +627,80 @@ def enabled (v : Variant) (s : St) (t : Nat) : Bool :=
        | .cont => !(openHeads s).isEmpty
        | _ => true)
     | _ => let _ := v; let _ := rest; true
+
+
+/-! ### The field-access table (lockset discipline)
+
+  For every instruction: which fields of `Client` / `Command` the corresponding Go code touches and
+  which locks the goroutine holds at that moment. Written from the code next to `exec`; the
+  -race workloads support that nothing is missing. -/
+
+inductive Field
+  | state | caps | enabled | mailbox | cmdTag | pendingCmds | contReqs | closed
+  | cmdTagField   -- Command.tag
+  | cmdDone       -- Command.done (the channel value, not the channel's contents)
+  deriving DecidableEq, Repr
+
+inductive Lock | mutex | encMutex
+  deriving DecidableEq, Repr
+
+structure Access where
+  field : Field
+  write : Bool
+  locks : List Lock
+  /-- the write happens before the object becomes reachable by other goroutines (it is published
+      by the same critical section, after this write) -/
+  prePublish : Bool := false
+  deriving DecidableEq, Repr
+
+def accesses (v : Variant) : Instr → List Access
+  | .register _ =>
+    [⟨.cmdTag, true, [.mutex, .encMutex], false⟩, ⟨.pendingCmds, true, [.mutex, .encMutex], false⟩,
+     ⟨.caps, false, [.mutex, .encMutex], false⟩, ⟨.enabled, false, [.mutex, .encMutex], false⟩] ++
+    (if v.initFirst then [⟨.cmdTagField, true, [.mutex, .encMutex], true⟩, ⟨.cmdDone, true, [.mutex, .encMutex], true⟩] else [])
+  | .postReg _ =>
+    if v.initFirst then [] else [⟨.cmdTagField, true, [.encMutex], false⟩, ⟨.cmdDone, true, [.encMutex], false⟩]
+  | .regCont _ => [⟨.contReqs, true, [.mutex], false⟩]
+  | .litCaps => [⟨.caps, false, [.mutex, .encMutex], false⟩]
+  | .capsLock _ => [⟨.caps, false, [.mutex], false⟩]
+  | .searchEnabled => [⟨.enabled, false, if v.enabledGuarded then [.mutex] else [], false⟩]
+  | .closeSwap =>
+    [⟨.state, true, [.mutex], false⟩, ⟨.pendingCmds, true, [.mutex], false⟩] ++
+    (if v.cancelOnClose then [⟨.contReqs, true, [.mutex], false⟩] else [])
+  | .loadDone _ _ => [⟨.cmdDone, false, [], false⟩]
+  | .cancelConts .. => [⟨.contReqs, true, [.mutex], false⟩]
+  | .setState _ => [⟨.state, true, [.mutex], false⟩, ⟨.mailbox, true, [.mutex], false⟩]
+  | .closeBegin => [⟨.closed, true, [.mutex], false⟩]
+  | .obsState => [⟨.state, false, [.mutex], false⟩]
+  | .obsMailbox => [⟨.mailbox, false, [.mutex], false⟩]
+  | .delByTag .. => [⟨.pendingCmds, true, [.mutex], false⟩, ⟨.cmdTagField, false, [.mutex], false⟩]
+  | .setCaps => [⟨.caps, true, [.mutex], false⟩]
+  | .popCont => [⟨.contReqs, true, [.mutex], false⟩]
+  | .enabledW => [⟨.enabled, true, [.mutex], false⟩]
+  | .findByType => [⟨.pendingCmds, false, [.mutex], false⟩]
+  | _ => []
+
+/-- one representative per instruction constructor (the table does not depend on the arguments) -/
+def instrKinds : List Instr :=
+  [.encLock, .register 0, .postReg 0, .flush 0 .line .final, .regCont 0, .litCaps, .contWait 0 false, .wait 0,
+   .fetchNext 0, .capsSel, .capsLock false, .searchEnabled, .opEnd, .idleGo 0, .idleStop 0, .idleJoin 0,
+   .idleRunSel 0, .idleDoneW 0, .idleRunClose 0, .idleWait 0, .closeSwap, .cancelOrphans [], .loadDone 0 .err,
+   .send 0 .err true, .closeDone 0, .cancelConts 0 .err, .setState .auth, .closeMsgs 0, .encUnlock, .closeBegin,
+   .closeJoin, .obsState, .obsMailbox, .connRead, .rdNext, .delByTag 0 .ok false, .setCaps, .popCont, .contDone 0,
+   .enabledW, .findByType, .rdExit, .srv .close]
+
+def allAccesses (v : Variant) : List Access := instrKinds.flatMap (accesses v)
+
+/-- the discipline for one field: every access holds `c.mutex`, or the field is written only
+    before its object is published and merely read afterwards -/
+def guardedField (v : Variant) (f : Field) : Bool :=
+  let as := (allAccesses v).filter (·.field = f)
+  as.all (fun a => a.locks.contains .mutex) ||
+  as.all (fun a => if a.write then a.prePublish else true)
+
+def allFields : List Field :=
+  [.state, .caps, .enabled, .mailbox, .cmdTag, .pendingCmds, .contReqs, .closed, .cmdTagField, .cmdDone]
+
+def guardedAll (v : Variant) : Bool := allFields.all (guardedField v)
 
 end GoImap.ClientConc
